@@ -21,6 +21,7 @@ import Gzx.Proofs.Image2DGlobal
 import Gzx.Properties.C14
 import Gzx.Properties.C01Mirror
 import Gzx.Properties.C01Multi
+import Gzx.Properties.C05
 import Gzx.Properties.C06PureRead
 namespace Gzx.Properties.C01Image
 open Gzx Gzx.Det Gzx.Det.Pure Gzx.Render Gzx.Image2D Gzx.ImagePath
@@ -217,9 +218,38 @@ theorem qr_image_path_eq_matrix_path {F α : Type} (o : FOps F) (n : Nat) (m : N
       simp only [qrRead, hnf]
     · left; exact ok_of bm hbm hex
 
-/-- whatever a matrix-level theorem says about `Decoder.Decode` on a REFERENCE symbol — `qr_roundtrip_bits`,
-    `qr_roundtrip_items`, `qr_roundtrip_segments`, the error-tolerance theorems of C05 on the clean symbol — holds of
-    the image path of that symbol -/
+/-- whatever a matrix-level theorem says about `Decoder.Decode` on the symbol that carries the final codeword
+    sequence `cw` (function patterns, format / version information and placement of the reference; the codewords may
+    be damaged) holds of the image path of that symbol -/
+theorem qr_image_of_matrix_result_cw {F : Type} (o : FOps F) (T : QRDec.Tables) (hint : ECI.Hint)
+    (v : Nat) (ec : QRRef.EC) (mask : Nat) (cw : List Nat) (want : QRDec.Decoded)
+    (hsym : QRDec.decode T QRComp.rsQR hint (QRComp.matrixOf (QRRef.refMatrix v ec mask cw)) = .ok want)
+    (q reqW reqH : Int) (hq : 0 ≤ q)
+    (ho : QRFloatExact o (qrScale (QRRef.dimension v) (QRRef.dimension v) q reqW reqH) (QRRef.dimension v)) :
+    let n := QRRef.dimension v
+    (40 ≤ outSize reqW n (2 * q) → 40 ≤ outSize reqH n (2 * q) →
+      qrImageDecode o T hint v ec mask cw q reqW reqH = .ok want) ∧
+    ((∀ img, renderQR n n (refModule v ec mask cw) q reqW reqH = .ok img → WhiteSample img) →
+      qrImageDecode o T hint v ec mask cw q reqW reqH = .ok want) ∧
+    (qrImageDecode o T hint v ec mask cw q reqW reqH = .ok want ∨
+      qrImageDecode o T hint v ec mask cw q reqW reqH = .error (.other .notFound)) := by
+  intro n
+  obtain ⟨img, himg, ew, eh, hbig, hany⟩ := qr_image_path_eq_matrix_path o n (refModule v ec mask cw) q reqW reqH hq
+    (refModule_finder v ec mask cw) ho (fun b => QRDec.decode T QRComp.rsQR hint (toQR b))
+  have hdec : QRDec.decode T QRComp.rsQR hint
+      (toQR { w := n, h := n, rows := matrixRows n n (refModule v ec mask cw) }) = .ok want := by
+    rw [show (toQR { w := n, h := n, rows := matrixRows n n (refModule v ec mask cw) }) =
+      QRComp.matrixOf (QRRef.refMatrix v ec mask cw) from toQR_ref v ec mask cw]
+    exact hsym
+  simp only [hdec, liftRes] at hbig hany
+  refine ⟨?_, ?_, hany⟩
+  · intro a b
+    exact hbig (Or.inl ⟨by rw [ew]; exact a, by rw [eh]; exact b⟩)
+  · intro hwhite
+    exact hbig (Or.inr (hwhite img himg))
+
+/-- … in particular of the reference symbol of a payload (`qr_roundtrip_bits`, `qr_roundtrip_items`,
+    `qr_roundtrip_segments`) -/
 theorem qr_image_of_matrix_result {F : Type} (o : FOps F) (T : QRDec.Tables) (hint : ECI.Hint)
     (v : Nat) (ec : QRRef.EC) (mask : Nat) (bits : List Bool) (want : QRDec.Decoded)
     (hsym : QRDec.decode T QRComp.rsQR hint (C01.refSymbol v ec mask bits) = .ok want)
@@ -235,19 +265,33 @@ theorem qr_image_of_matrix_result {F : Type} (o : FOps F) (T : QRDec.Tables) (hi
       qrImageDecode o T hint v ec mask cw q reqW reqH = .error (.other .notFound)) := by
   intro cw n
   unfold C01.refSymbol at hsym
-  obtain ⟨img, himg, ew, eh, hbig, hany⟩ := qr_image_path_eq_matrix_path o n (refModule v ec mask cw) q reqW reqH hq
-    (refModule_finder v ec mask cw) ho (fun b => QRDec.decode T QRComp.rsQR hint (toQR b))
-  have hdec : QRDec.decode T QRComp.rsQR hint
-      (toQR { w := n, h := n, rows := matrixRows n n (refModule v ec mask cw) }) = .ok want := by
-    rw [show (toQR { w := n, h := n, rows := matrixRows n n (refModule v ec mask cw) }) =
-      QRComp.matrixOf (QRRef.refMatrix v ec mask cw) from toQR_ref v ec mask cw]
-    exact hsym
-  simp only [hdec, liftRes] at hbig hany
-  refine ⟨?_, ?_, hany⟩
-  · intro a b
-    exact hbig (Or.inl ⟨by rw [ew]; exact a, by rw [eh]; exact b⟩)
-  · intro hwhite
-    exact hbig (Or.inr (hwhite img himg))
+  exact qr_image_of_matrix_result_cw o T hint v ec mask cw want hsym q reqW reqH hq ho
+
+/-- **the image of a DAMAGED symbol** (C05 at image level): the codeword modules carry the interleaving of received
+    blocks in which at most ⌊ecPerBlock/2⌋ codewords of every Reed-Solomon block differ from what was written
+    (`QRComp.Received`); its rendering at any size and margin ≥ 0, read in pure-barcode mode, gives exactly what the
+    undamaged symbol gives.  Function patterns are those of the reference: damage to the finder diagonal is outside
+    this statement. -/
+theorem qr_image_tolerates_block_errors {F : Type} (o : FOps F) (T : QRDec.Tables) (hT : QRComp.TablesConform T)
+    (hint : ECI.Hint) (v : Nat) (h1 : 1 ≤ v) (h40 : v ≤ 40) (ec : QRRef.EC) (mask : Nat) (hm : mask < 8)
+    (bits : List Bool) (hfit : bits.length ≤ 8 * QRRef.dataCodewords v ec) (parsed : QRDec.Parsed)
+    (hparse : ∀ tail, QRDec.Terminated tail → QRDec.parseStream T.eci (bits ++ tail) v hint = .ok parsed)
+    (recv : List (List Nat × List Nat))
+    (hrecv : QRComp.Received v ec (QRRef.terminate (QRRef.dataCodewords v ec) bits) recv)
+    (q reqW reqH : Int) (hq : 0 ≤ q)
+    (ho : QRFloatExact o (qrScale (QRRef.dimension v) (QRRef.dimension v) q reqW reqH) (QRRef.dimension v)) :
+    let cw := QRDec.interleave recv
+    let want : QRDec.Decoded := ⟨parsed, QRComp.toDecEC ec, v, QRRef.terminate (QRRef.dataCodewords v ec) bits, false⟩
+    let n := QRRef.dimension v
+    (40 ≤ outSize reqW n (2 * q) → 40 ≤ outSize reqH n (2 * q) →
+      qrImageDecode o T hint v ec mask cw q reqW reqH = .ok want) ∧
+    ((∀ img, renderQR n n (refModule v ec mask cw) q reqW reqH = .ok img → WhiteSample img) →
+      qrImageDecode o T hint v ec mask cw q reqW reqH = .ok want) ∧
+    (qrImageDecode o T hint v ec mask cw q reqW reqH = .ok want ∨
+      qrImageDecode o T hint v ec mask cw q reqW reqH = .error (.other .notFound)) := by
+  intro cw want n
+  exact qr_image_of_matrix_result_cw o T hint v ec mask cw want
+    (C05.qr_tolerates_block_errors T hT hint v h1 h40 ec mask hm bits hfit parsed hparse recv hrecv) q reqW reqH hq ho
 
 /-- **`qr_image_pure_roundtrip`** — payload bits (mode, count, data of ANY segment list that fits version `v` at level
     `ec`) → reference symbol (terminator, padding, RS parity, interleaving, placement, mask 0..7, function patterns) →
